@@ -22,7 +22,7 @@ HIST = hprop.HistoryProperty(
     profile=profile(nv=(2, 7), n_requests=(5, 40), socs=[0.02, 0.3, 0.8, 0.97], timeouts=[60, 120, 300]),
     nontrivial=lambda f: {"cross_search_cell_move", "request_removed"} <= f,
     rule="", assumptions=[],
-    quick=(6, 60, 40), thorough=(6, 1500, 70), probes=True,
+    quick=(6, 60, 40), thorough=(6, 800, 60), probes=True,
     instr_bias={"relocate": True, "kinds": [1, 1, 1, 8, 8, 8, 2, 5, 0, 3, 6]},
 )
 RULE = ("(a) component: operation sequences (<= 60) on simulation_state_ops: add / move / remove / pop vehicle, add / move / remove request, "
@@ -222,7 +222,7 @@ def shard(tier, seed, idx) -> ShardResult:
     if idx < 10:
         res = ShardResult()
         comp.run(PROP, st_case(), check_case, lambda f: {"cross_search_cell_move", "return_to_previous_cell", "removal_from_shared_cell"} <= f, res,
-                 cases=250 if tier == "quick" else 10000, seed=seed * 1000 + idx, kind="component")
+                 cases=250 if tier == "quick" else 6000, seed=seed * 1000 + idx, kind="component")
         return res
     return hprop.shard(HIST, tier, seed, idx)
 
